@@ -655,6 +655,18 @@ func genCla(seed uint64, n int, outp string) {
 				if r.Chance(1, 12) {
 					eps = nil
 				}
+				// endpoint keys (namespace/workload/first address/port name) are distinct inside one registry's report:
+				// the hypothesis of pushType_sound's last clause (with duplicates, dropping one of two same-key
+				// endpoints is NoPush: noPush_dupkey_witness; the index stream does exercise that corner)
+				seenKeys := map[string]bool{}
+				uniq := eps[:0:0]
+				for _, e := range eps {
+					if !seenKeys[e.Key()] {
+						seenKeys[e.Key()] = true
+						uniq = append(uniq, e)
+					}
+				}
+				eps = uniq
 				for _, e := range eps {
 					// the registries derive the flag from the service (Service.SupportsUnhealthyEndpoints), i.e. from
 					// the same process-wide default the builder reads: an endpoint whose flag disagrees with it does
